@@ -18,7 +18,7 @@
      [join_dots p] is the dotted string of p.  Every path vouch passes is proper.
    All theorems hold for every configuration (values present, absent, zero, empty, malformed at
    any level) and every such path. *)
-From Verif Require Import Lib.Base Model.C19_Hierarchy Proofs.C19 Check.C19 Proofs.C19_Check.
+From Verif Require Import Lib.Base Model.C19_Hierarchy Proofs.C19 Proofs.C19_History Check.C19 Proofs.C19_Check.
 Local Open Scope list_scope.
 
 Notation len := List.length.
@@ -112,11 +112,66 @@ Print Assumptions C19_string_lookup_is_reference.
 
 (* What the correspondence check's predicate P_b means: if it holds of a case, then every value the
    implementation returned is the one the property demands for the queried path (address lists are
-   compared as lists: nil and empty are the same). *)
+   compared as lists: nil and empty are the same) in the configuration AS IT STOOD WHEN THE CALL WAS
+   MADE: the first calls in the installed tree, the calls of every later phase in the tree reached by
+   the changes made so far on the same viper instance ([later_ok], [apply_changes]). *)
 Theorem C19_P_b_sound :
-  forall cs : case, P_b cs = true -> Forall (query_ok (c_cfg cs) (c_deflevel cs)) (c_queries cs).
+  forall cs : case, P_b cs = true ->
+    Forall (query_ok (c_cfg cs) (c_deflevel cs)) (c_queries cs) /\
+    later_ok (c_cfg cs, c_deflevel cs) (c_later cs).
 Proof. exact P_b_sound. Qed.
 Print Assumptions C19_P_b_sound.
+
+(* ---- a configuration that changes between calls ---- *)
+(* The functions keep nothing between calls; the property is about the tree as it stands. *)
+
+(* A value set at level p (below the top level) is what every later lookup of a path through p
+   returns, unless a deeper level of that path has a value of its own - whatever was looked up
+   before the change. *)
+Theorem C19_change_is_seen :
+  forall (V : Type) (has : raw -> bool) (conv : raw -> V) (top : config -> V) (setting : comp)
+         (c : config) (p q : path) (r : raw),
+    dot_free setting = true -> wf_path (p ++ q) -> p <> [] -> has r = true ->
+    (forall j, (1 <= j <= len q)%nat -> has (get c ((p ++ firstn j q) ++ [setting])) = false) ->
+    lookup_s has conv top setting (set_leaf (p ++ [setting]) r c) (join_dots (p ++ q)) = conv r.
+Proof.
+  intros V has conv top setting c p q r Hs Hwf Hp Hr Hq.
+  rewrite lookup_s_join by assumption.
+  exact (lookup_change_seen has conv top setting c p q r Hp Hr Hq).
+Qed.
+Print Assumptions C19_change_is_seen.
+
+(* A changed top-level setting is read at once by every path none of whose levels has a value. *)
+Theorem C19_top_level_change_is_seen :
+  forall (V : Type) (has : raw -> bool) (conv : raw -> V) (top : config -> V) (setting : comp)
+         (c : config) (p : path) (r : raw),
+    dot_free setting = true -> wf_path p ->
+    (forall j, (1 <= j <= len p)%nat -> has (get c (firstn j p ++ [setting])) = false) ->
+    lookup_s has conv top setting (set_leaf [setting] r c) (join_dots p) = top (set_leaf [setting] r c).
+Proof.
+  intros V has conv top setting c p r Hs Hwf Hno.
+  rewrite lookup_s_join by assumption.
+  exact (lookup_top_change_seen has conv top setting c p r Hno).
+Qed.
+Print Assumptions C19_top_level_change_is_seen.
+
+(* A value that disappears from level p.x uncovers, for every path through p.x with nothing deeper,
+   the result of p in the new tree.  (All three "has a value" tests reject an absent value and an
+   inner node.) *)
+Theorem C19_removal_is_seen :
+  forall (V : Type) (has : raw -> bool) (conv : raw -> V) (top : config -> V) (setting : comp)
+         (c : config) (p : path) (x : comp) (q : path),
+    dot_free setting = true -> wf_path p -> wf_path ((p ++ [x]) ++ q) ->
+    has RNil = false -> has RMap = false ->
+    (forall j, (1 <= j <= len q)%nat -> has (get c (((p ++ [x]) ++ firstn j q) ++ [setting])) = false) ->
+    lookup_s has conv top setting (del_leaf ((p ++ [x]) ++ [setting]) c) (join_dots ((p ++ [x]) ++ q)) =
+    lookup_s has conv top setting (del_leaf ((p ++ [x]) ++ [setting]) c) (join_dots p).
+Proof.
+  intros V has conv top setting c p x q Hs Hp Hwf Hnil Hmap Hq.
+  rewrite !lookup_s_join by assumption.
+  exact (lookup_removal_seen has conv top setting c p x q Hnil Hmap Hq).
+Qed.
+Print Assumptions C19_removal_is_seen.
 
 (* ---- consequences ---- *)
 
@@ -268,4 +323,27 @@ Proof.
   - reflexivity.
   - intros j Hj. assert (j = 3%nat) as -> by (cbn in Hj; lia). reflexivity.
   - apply C19_reference_characterised. reflexivity.
+Qed.
+
+(* a history on one tree: look up, set an intermediate level, look up again (the scenario a
+   memoising LogLevel gets wrong), then change the top level, then remove the intermediate value *)
+Example C19_history_example :
+  let c0 := [ (["log-level"], RStr "info") ] in
+  let c1 := fst (apply_changes (c0, 0%Z) [ChSet ["strategies"; "attestationdata"; "log-level"] (RStr "warn")]) in
+  let c2 := fst (apply_changes (c1, 0%Z) [ChSet ["log-level"] (RStr "error")]) in
+  let c3 := fst (apply_changes (c2, 0%Z) [ChDel ["strategies"; "attestationdata"; "log-level"]]) in
+  log_level 0%Z c0 "strategies.attestationdata.best" = lvl_info /\
+  log_level 0%Z c1 "strategies.attestationdata.best" = lvl_warn /\
+  log_level 0%Z c1 "strategies.beaconblockproposal.best" = lvl_info /\
+  log_level 0%Z c2 "strategies.attestationdata.best" = lvl_warn /\
+  log_level 0%Z c2 "controller" = lvl_error /\
+  log_level 0%Z c3 "strategies.attestationdata.best" = lvl_error /\
+  (* the hypotheses of C19_change_is_seen are met *)
+  str_nonempty (RStr "warn") = true /\
+  wf_path (["strategies"; "attestationdata"] ++ ["best"]) /\
+  (forall j, (1 <= j <= len ["best"])%nat ->
+     str_nonempty (get c0 ((["strategies"; "attestationdata"] ++ firstn j ["best"]) ++ [k_loglevel])) = false).
+Proof.
+  cbn zeta. repeat (apply conj); try reflexivity; try discriminate.
+  repeat constructor.
 Qed.
